@@ -180,6 +180,8 @@ def _cut_loop(ver, eng, rep, c, node, st: State, fi, k, invs, desc):
             fr.vars[idx_name] = SInt(0)
         else:
             fr.vars[seen_name] = st.new_container(TSet(desc.ety))
+        if desc.kind in ("list", "keys", "items", "values") and isinstance(getattr(desc, "ref", None), SRef):
+            fr.vars[f"loop{k}_iter"] = desc.ref  # ghost: the collection the loop walks (it may have no name in the source)
     # ---- invariant on entry ----------------------------------------------------------------------
     for cl in invs:
         g = spec_eval(eng, st, fi, cl.expr, lets, old=old)
@@ -203,6 +205,8 @@ def _cut_loop(ver, eng, rep, c, node, st: State, fi, k, invs, desc):
             eng.pure = True
             try:
                 (s_, v_), = eng.ev(m.args[0], st.copy(), fi)
+                from .verify import _keep_axioms
+                _keep_axioms(st, s_)
             finally:
                 eng.pure = saved
             values_of.append(v_)
@@ -211,12 +215,16 @@ def _cut_loop(ver, eng, rep, c, node, st: State, fi, k, invs, desc):
             eng.pure = True
             try:
                 (s_, v_), = eng.ev(m, st.copy(), fi)
+                from .verify import _keep_axioms
+                _keep_axioms(st, s_)
             finally:
                 eng.pure = saved
             extra_refs.append(v_.t)
     base = st
-    for round_no in range(6):
-        hs, fresh_consts = _havocked(eng, base, fi, assigned, extra_fields, extra_refs, events, values_of, desc, k)
+    must_cache: dict = {}
+    local_ty: dict = {}
+    for round_no in range(8):
+        hs, fresh_consts = _havocked(eng, base, fi, assigned, extra_fields, extra_refs, events, values_of, desc, k, local_ty)
         # assume invariants
         for cl in invs:
             hs.assume(spec_eval(eng, hs, fi, cl.expr, lets, old=old))
@@ -225,13 +233,31 @@ def _cut_loop(ver, eng, rep, c, node, st: State, fi, k, invs, desc):
         probe.written_fields = set()
         step = _iteration(eng, node, probe, fi, desc, k, dry=True)
         new_fields, new_refs, new_events = set(), [], False
+        a0 = len(getattr(probe, "alloc_log", ()))
         for o in step["all"]:
             new_fields |= set(o.st.written_fields)
+            born = {z3.simplify(x).get_id() for x in getattr(o.st, "alloc_log", ())[a0:]}  # allocated inside this iteration: not loop state
             for r in o.st.written_containers[w0c:]:
-                new_refs.append(r)
+                if z3.simplify(r).get_id() not in born:
+                    new_refs.append(r)
             if not z3.eq(z3.simplify(o.st.ev_len), z3.simplify(e0)):
                 new_events = True
         grew = False
+        # static kinds of the locals at the loop head: a local is havocked at the type of its value on ENTRY only if every iteration
+        # leaves a value of that same type in it; otherwise it is widened (declared annotation, else the union of what was seen)
+        for o in step["back"]:
+            fr_end = o.st.frames[fi]
+            for name in sorted(assigned):
+                if name not in base.frames[fi].vars or name not in fr_end.vars:
+                    continue
+                if isinstance(base.frames[fi].vars[name], (sym.SFunc, sym.SBuiltin, sym.SClass, sym.SModule, SIter)):
+                    continue
+                t_cur = local_ty.get(name, _ty_of(base.frames[fi].vars[name]))
+                t_end = _ty_of(fr_end.vars[name])
+                if t_end is None or _covers(t_cur, t_end):
+                    continue
+                local_ty[name] = _declared_local_type(eng, ver, name, fr.module) or _join(t_cur, t_end)
+                grew = True
         if not new_fields <= extra_fields:
             extra_fields |= new_fields
             grew = True
@@ -242,13 +268,15 @@ def _cut_loop(ver, eng, rep, c, node, st: State, fi, k, invs, desc):
             rs = z3.simplify(r)
             if any(z3.eq(rs, z3.simplify(e)) for e in extra_refs):
                 continue
-            if any(_is_value_of(hs, rs, d) for d in values_of):
+            if any(_is_value_of(hs, rs, d) or z3.eq(rs, z3.simplify(d.t)) for d in values_of):
                 continue  # (syntactic test first: the solver-backed tests below are expensive when they fail)
-            if any(hs.must(rs == e) for e in extra_refs):
-                continue  # the same container reached through a syntactically different (post-havoc) term
-            # allocated inside the iteration? then it is not loop state
-            if hs.must(rs >= hs.heap.next_ref):
-                continue
+            key = rs.sexpr()
+            if key not in must_cache:
+                # allocated inside the iteration? then it is not loop state (usually decided by the quantifier-free part: try that first)
+                must_cache[key] = "fresh" if (hs.must_qf(rs >= hs.heap.next_ref) or hs.must(rs >= hs.heap.next_ref)) else \
+                    ("alias" if any(hs.must(rs == e) for e in extra_refs) else "state")
+            if must_cache[key] in ("fresh", "alias"):
+                continue  # alias: the same container reached through a syntactically different (post-havoc) term
             if _consts_of(rs) & fresh_consts:
                 raise Unsupported(f"loop at line {node.lineno} writes a container that depends on the iteration "
                                   f"({rs.sexpr()[:80]}); declare loop_modifies({k}, values_of(..))")
@@ -259,11 +287,15 @@ def _cut_loop(ver, eng, rep, c, node, st: State, fi, k, invs, desc):
     else:
         raise Unsupported("loop write-set fixpoint did not converge")
     # ---- the real step from the havocked state -----------------------------------------------------
-    hs, _ = _havocked(eng, base, fi, assigned, extra_fields, extra_refs, events, values_of, desc, k)
+    hs, _ = _havocked(eng, base, fi, assigned, extra_fields, extra_refs, events, values_of, desc, k, local_ty)
     for cl in invs:
         hs.assume(spec_eval(eng, hs, fi, cl.expr, lets, old=old))
     step = _iteration(eng, node, hs, fi, desc, k, dry=False)
     out = []
+    if not [o for o in step["back"] if o.st.feasible()] and k not in (c.opts.get("loop_never_repeats") or []):
+        # no path through the body reaches the loop head again: either the loop really cannot repeat (declare it:
+        # option(loop_never_repeats=[k])) or the executor lost the paths - then the invariant would never be checked
+        raise Unsupported(f"loop {k} at line {node.lineno}: no feasible path through the body returns to the loop head (vacuity guard)")
     for o in step["back"]:
         # end of an iteration: invariant must be re-established; the path ends here
         for cl in invs:
@@ -274,20 +306,70 @@ def _cut_loop(ver, eng, rep, c, node, st: State, fi, k, invs, desc):
     return out
 
 
+def _ty_of(v):
+    if isinstance(v, (sym.SFunc, sym.SBuiltin, sym.SClass, sym.SModule, SIter)):
+        return None
+    return getattr(v, "ty", ANY)
+
+
+def _alts(t):
+    return list(t.alts) if t.kind == "union" else [t]
+
+
+def _covers(a, b):
+    """every value of static type b is a value of static type a (syntactic)"""
+    if a.kind == "any":
+        return True
+    if b.kind == "any":
+        return False
+    ra = {repr(x) for x in _alts(a)}
+    return all(repr(x) in ra for x in _alts(b))
+
+
+def _join(a, b):
+    if a.kind == "any" or b.kind == "any":
+        return ANY
+    out, seen = [], set()
+    for x in _alts(a) + _alts(b):
+        if repr(x) not in seen:
+            seen.add(repr(x))
+            out.append(x)
+    return out[0] if len(out) == 1 else sym.TUnion(out)
+
+
+def _declared_local_type(eng, ver, name, module):
+    """annotation of the local in the verified function (`x: T = ..`), if any"""
+    fn = getattr(ver, "_fn_node", None)
+    if fn is None:
+        return None
+    for n in ast.walk(fn):
+        if isinstance(n, ast.AnnAssign) and isinstance(n.target, ast.Name) and n.target.id == name:
+            try:
+                t = eng.fe.parse_type(n.annotation, module)
+            except Exception:
+                return None
+            return t
+    return None
+
+
 def _is_value_of(st, rs, d):
     """is container ref rs syntactically a value read from dict d?  (select(cmap(d), key)) -- conservative syntactic test"""
     txt = rs.sexpr()
     return f"{d.t.sexpr()}" in txt and "Cmap" in txt or False
 
 
-def _havocked(eng, base: State, fi, assigned, fields, refs, events, values_of, desc, k):
+def _havocked(eng, base: State, fi, assigned, fields, refs, events, values_of, desc, k, local_ty=None):
     hs = base.copy()
     fr = hs.frames[fi]
     fresh = set()
     before = set()
     for name in sorted(assigned):
         if name in fr.vars:
-            nv = _havoc_local(eng, hs, fi, name, fr.vars[name])
+            if local_ty and name in local_ty:
+                from .verify import symbolic_value
+                nv = symbolic_value(eng, hs, name, local_ty[name])  # widened: the loop assigns values of another type than the entry value's
+            else:
+                nv = _havoc_local(eng, hs, fi, name, fr.vars[name])
             fr.vars[name] = nv
             try:
                 fresh |= _consts_of(nv.val())
@@ -334,6 +416,7 @@ def _havocked(eng, base: State, fi, assigned, fields, refs, events, values_of, d
         na = sym.fresh_const("events", sym.SeqArrS)
         hs.assume(z3.ForAll([kx], z3.Implies(z3.And(kx >= 0, kx < base.ev_len), z3.Select(na, kx) == z3.Select(base.ev_arr, kx))))
         hs.ev_len, hs.ev_arr = n, na
+        hs.havoc_ev_set()
     # objects may have been allocated by earlier iterations
     na = z3.Int(sym.fresh_name("alloc"))
     hs.assume(na >= hs.heap.next_ref)
